@@ -46,6 +46,24 @@ def step_store(n, absent=False, recent=False):
     )
 
 
+def steps_toggle(n):
+    """Three STOREs by one session on the same messages that end where they started from the others' point of
+    view: +F -F +F, or FLAGS x / FLAGS y / FLAGS x (seeded/C04-3: queued notifications de-duplicated, so the
+    last FETCH another session is sent shows the intermediate state)."""
+    def build(s, u, ss, f, g, repl, sl):
+        mk = lambda act, fl: {"op": "store", "s": s, "uid": u, "set": ss, "act": act, "silent": sl, "flags": fl, "recent": False}  # noqa: E731
+        return [mk(2, f), mk(2, g), mk(2, f)] if repl else [mk(0, f), mk(1, f), mk(0, f)]
+
+    return st.builds(build, sess(n), st.booleans(), seqset(False), flags(), flags(), st.booleans(), st.booleans())
+
+
+def flatten(steps):
+    out = []
+    for x in steps:
+        out.extend(x if isinstance(x, list) else [x])
+    return out
+
+
 def step_delete_flag(n, absent=False):
     """STORE +FLAGS (\\Deleted) on a generated set (index 3 of the flag pool)."""
     return st.builds(
